@@ -826,7 +826,7 @@ class Paths:
 
 TRANSPARENT = ('ImplicitCastExpr', 'ParenExpr', 'ExprWithCleanups', 'MaterializeTemporaryExpr', 'CXXBindTemporaryExpr',
                'CXXFunctionalCastExpr', 'CXXStaticCastExpr', 'CStyleCastExpr', 'ConstantExpr', 'SubstNonTypeTemplateParmExpr',
-               'CXXConstCastExpr')
+               'CXXConstCastExpr', 'CXXDynamicCastExpr', 'CXXReinterpretCastExpr')
 REL = {'<': sp.Lt, '>': sp.Gt, '<=': sp.Le, '>=': sp.Ge, '==': sp.Eq, '!=': sp.Ne}
 
 
@@ -1103,7 +1103,7 @@ class Exec:
             s.env.setdefault('__refs__', set()).add(name)
             return
         v = rval(v)
-        if isinstance(v, Mx) and '&' not in ty:
+        if isinstance(v, Mx) and '&' not in ty and not (v.base is not None and re.search(r'Block<|VectorBlock<|pair_matrix', ty + ' ' + vd['type'].get('desugaredQualType', ''))):
             v = v.copy()
             if 'Array' in ty: v.arr = True
             elif 'Matrix' in ty or 'Vector' in ty: v.arr = False
@@ -1180,7 +1180,7 @@ class Exec:
             elif ck == 'ToVoid':
                 v = None
             elif ck in ('IntegralCast', 'NoOp', 'ConstructorConversion', 'UserDefinedConversion', 'DerivedToBase', 'UncheckedDerivedToBase',
-                        'ArrayToPointerDecay', 'FunctionToPointerDecay', 'BuiltinFnToFnPtr', 'NullToPointer', 'FloatingCast', 'BitCast', None):
+                        'ArrayToPointerDecay', 'FunctionToPointerDecay', 'BuiltinFnToFnPtr', 'NullToPointer', 'FloatingCast', 'BitCast', 'Dynamic', 'BaseToDerived', None):
                 if ck == 'IntegralCast' and isinstance(rval(v), bool):
                     v = int(rval(v))
             else:
@@ -1468,6 +1468,8 @@ class Exec:
                     else:
                         a, b = int(mt.group(1)), int(mt.group(2))
                         targs = [b if name in ('rightCols', 'leftCols') or (obj.r == 1) else a]
+                if name == 'segment' and not targs and len(args) == 2:
+                    return obj.segment(args[1], args[0])       # runtime form segment(start, count)
                 return getattr(obj, name)(*(targs + args))
             if name == 'selfadjointView':
                 return obj.selfadjointViewLower()
@@ -1565,7 +1567,7 @@ class Exec:
             if name == 'accumulate':
                 acc = args[2]
                 for x in src:
-                    acc = s.arith('+', acc, x)
+                    acc = args[3](acc, x) if len(args) > 3 else s.arith('+', acc, x)
                 return acc
             dst = args[2]
             for j, x in enumerate(src):
